@@ -9,6 +9,7 @@ import (
 	"os"
 	"os/exec"
 	"path/filepath"
+	"strconv"
 	"strings"
 	"time"
 
@@ -285,8 +286,40 @@ func (b *Batch) Vet() error {
 // ErrHarness reports that the harness's own export file or driver does not compile against the emitted code.
 var ErrHarness = fmt.Errorf("harness does not fit the emitted package")
 
-// ErrTimeout reports that the driver produced no result within its (generous) time limit.
-var ErrTimeout = fmt.Errorf("the driver linked with the emitted packages did not finish within its time limit")
+// ErrTimeout reports that the driver produced no result within its wall-clock limit although it hardly got the
+// processor (a busy machine): nothing can be concluded from it.
+var ErrTimeout = fmt.Errorf("the driver linked with the emitted packages did not finish within its time limit (starved, inconclusive)")
+
+// ErrSpinning reports that the driver used SpinCPU of processor time without producing its result: the jobs take
+// milliseconds, so this is non-termination and not a slow machine (the measure is processor time, not the clock).
+var ErrSpinning = fmt.Errorf("the driver linked with the emitted packages computes without end")
+
+// SpinCPU is the processor time after which a driver is taken to be spinning; WallLimit ends the wait in any case.
+const (
+	SpinCPU   = 10 * time.Second
+	WallLimit = 180 * time.Second
+)
+
+// CPUTime returns the processor time (user + system) a live process has used so far, from /proc/<pid>/stat.
+func CPUTime(pid int) time.Duration { return cpuTime(pid) }
+
+func cpuTime(pid int) time.Duration {
+	data, err := os.ReadFile(fmt.Sprintf("/proc/%d/stat", pid))
+	if err != nil {
+		return 0
+	}
+	s := string(data)
+	if i := strings.LastIndexByte(s, ')'); i >= 0 {
+		s = s[i+1:]
+	}
+	f := strings.Fields(s)
+	if len(f) < 13 {
+		return 0
+	}
+	ut, _ := strconv.ParseInt(f[11], 10, 64)
+	st, _ := strconv.ParseInt(f[12], 10, 64)
+	return time.Duration(ut+st) * (time.Second / 100) // clock ticks of 10 ms
+}
 
 // Run sends the jobs to the driver and returns one raw JSON answer per job.
 func Run(bin string, jobs []Job) ([]json.RawMessage, error) {
@@ -306,16 +339,30 @@ func Run(bin string, jobs []Job) ([]json.RawMessage, error) {
 	}
 	done := make(chan error, 1)
 	go func() { done <- cmd.Wait() }()
-	limit := time.Duration(20+len(jobs)/4) * time.Second
-	select {
-	case err := <-done:
-		if err != nil {
-			return nil, fmt.Errorf("driver: %v\n%s", err, errb.String())
+	spin := SpinCPU + time.Duration(len(jobs)/4)*time.Second
+	start := time.Now()
+	tick := time.NewTicker(500 * time.Millisecond)
+	defer tick.Stop()
+wait:
+	for {
+		select {
+		case err := <-done:
+			if err != nil {
+				return nil, fmt.Errorf("driver: %v\n%s", err, errb.String())
+			}
+			break wait
+		case <-tick.C:
+			if cpuTime(cmd.Process.Pid) >= spin {
+				_ = cmd.Process.Kill()
+				<-done
+				return nil, ErrSpinning
+			}
+			if time.Since(start) >= WallLimit {
+				_ = cmd.Process.Kill()
+				<-done
+				return nil, ErrTimeout
+			}
 		}
-	case <-time.After(limit):
-		_ = cmd.Process.Kill()
-		<-done
-		return nil, ErrTimeout
 	}
 	var res []json.RawMessage
 	dec := json.NewDecoder(&out)
